@@ -717,33 +717,65 @@ def r_directives_from_options(ctx, repo):
     return rule
 
 
-def _scalar_flag_roles(f):
-    """(locals that hold the four style permissions that only double quotes survive, the names of the flags that knock them
-    out) in analyze_scalar: found through the keywords of the ScalarAnalysis(...) it returns, not through local names."""
-    perms = None
-    for n in walk_function(f.node):
-        if isinstance(n, ast.Call) and norm(n.func) == 'ScalarAnalysis':
-            kw = {k.arg: k.value for k in n.keywords}
-            want = ('allow_flow_plain', 'allow_block_plain', 'allow_single_quoted', 'allow_block')
-            if all(isinstance(kw.get(w), ast.Name) for w in want):
-                perms = {kw[w].id for w in want}
-    if perms is None:
-        raise AnalysisError('analyze_scalar: the ScalarAnalysis(...) built from the style permissions was not found')
-    flags = set()
-    for n in walk_function(f.node):
-        if not isinstance(n, ast.If):
+PERMISSIONS = ('allow_flow_plain', 'allow_block_plain', 'allow_single_quoted', 'allow_block')
+
+
+def _scalar_analysis_parts(repo, f):
+    """(per-character loop, character variables, flags) of analyze_scalar, all found by role:
+    the loop is the top-level loop that binds a variable to one character of the scalar (the parameter); a *flag* is a
+    local the loop sets to True such that, when it is True, the code after the loop builds a ScalarAnalysis in which
+    only the double-quoted style is allowed (decided by evaluating that code, whatever its shape)."""
+    body = f.node.body
+    text = f.params[1] if len(f.params) > 1 else None
+    loop, cvars = None, set()
+    for s in body:
+        if not isinstance(s, (ast.While, ast.For)):
             continue
-        falsified = set()
-        for s in n.body:
-            if isinstance(s, ast.Assign) and isinstance(s.value, ast.Constant) and s.value.value is False:
-                falsified |= {x.id for t in s.targets for x in ast.walk(t) if isinstance(x, ast.Name)}
-        if perms <= falsified:
-            t = n.test
-            parts = t.values if isinstance(t, ast.BoolOp) and isinstance(t.op, ast.Or) else [t]
-            flags |= {p.id for p in parts if isinstance(p, ast.Name)}
+        cv = set()
+        if isinstance(s, ast.For) and any(isinstance(x, ast.Name) and x.id == text for x in ast.walk(s.iter)):
+            names = [x.id for x in ast.walk(s.target) if isinstance(x, ast.Name)]
+            cv |= set(names[-1:])            # for ch in scalar / for index, ch in enumerate(scalar)
+        for x in ast.walk(s):
+            if isinstance(x, ast.Assign) and len(x.targets) == 1 and isinstance(x.targets[0], ast.Name) \
+                    and isinstance(x.value, ast.Subscript) and not isinstance(x.value.slice, ast.Slice) \
+                    and isinstance(x.value.value, ast.Name) and x.value.value.id == text:
+                cv.add(x.targets[0].id)
+        if cv:
+            loop, cvars = s, cv
+            break
+    if loop is None:
+        raise AnalysisError('analyze_scalar: no loop over the characters of the scalar found')
+    ret = None
+    for s in body[body.index(loop) + 1:]:
+        if isinstance(s, ast.Return) and isinstance(s.value, ast.Call) and norm(s.value.func) == 'ScalarAnalysis' \
+                and all(any(k.arg == w for k in s.value.keywords) for w in PERMISSIONS):
+            ret = s
+    if ret is None:
+        raise AnalysisError('analyze_scalar: the ScalarAnalysis(...) built after the loop was not found')
+    tail = body[body.index(loop) + 1:body.index(ret)]
+    kws = {k.arg: k.value for k in ret.value.keywords}
+    cands = sorted({t.id for x in ast.walk(loop) if isinstance(x, ast.Assign) and isinstance(x.value, ast.Constant)
+                    and x.value.value is True for t in x.targets if isinstance(t, ast.Name)})
+    flags = set()
+    for F in cands:
+        it = CW.Interp(repo, None, '\uffff', '<none>', None)
+        try:
+            ends = it.run_block(tail, CW.State({F: CW.C(True)}), 0)
+            forced = bool(ends)
+            for kind, val, st in ends:
+                if kind != 'fall':
+                    forced = False
+                    break
+                for w in PERMISSIONS:
+                    if any(CW.truth(v) is not False for v, s2 in it.ev(kws[w], st, 0)):
+                        forced = False
+        except (CW.Budget, AnalysisError):
+            forced = False
+        if forced:
+            flags.add(F)
     if not flags:
         raise AnalysisError('analyze_scalar: no flag restricts the scalar to the double-quoted style')
-    return perms, flags
+    return loop, cvars, flags
 
 
 def r_ascii_unless_unicode(ctx, repo):
@@ -773,34 +805,16 @@ def r_ascii_unless_unicode(ctx, repo):
     f = E.methods.get('analyze_scalar')
     if f is None:
         raise AnalysisError('Emitter.analyze_scalar has vanished')
-    perms, flags = _scalar_flag_roles(f)
+    loop, cvars, flags = _scalar_analysis_parts(repo, f)
     S = Scenario(repo, f)
     cfg = S.cfg
-    raising = [n for n in cfg.nodes if isinstance(n.ast, ast.Assign) and isinstance(n.ast.value, ast.Constant)
-               and n.ast.value.value is True and any(isinstance(t, ast.Name) and t.id in flags for t in n.ast.targets)]
-    if not raising:
-        raise AnalysisError('analyze_scalar: the double-quotes-only flag is never raised')
-    loops = [l for l in RE.preorder_stmts(f.node) if isinstance(l, (ast.While, ast.For))
-             and any(r.ast is x for r in raising for x in ast.walk(l))]
-    if not loops:
-        raise AnalysisError('analyze_scalar: the flag is not raised inside the per-character loop')
-    loop = loops[0]
-    lowered = [n for n in cfg.nodes if isinstance(n.ast, ast.Assign) and any(n.ast is x for x in ast.walk(loop))
-               and any(isinstance(t, ast.Name) and t.id in flags for t in n.ast.targets) and n not in raising]
-    if lowered:
+    in_loop = {id(x) for x in ast.walk(loop)}
+    flag_defs = [n for n in cfg.nodes if isinstance(n.ast, (ast.Assign, ast.AugAssign, ast.AnnAssign)) and id(n.ast) in in_loop
+                 and any(nm in flags for nm in Flow.bound_names(n))]
+    raising = [n for n in flag_defs if isinstance(n.ast, ast.Assign) and isinstance(n.ast.value, ast.Constant)
+               and n.ast.value.value is True]
+    if len(raising) != len(flag_defs):
         raise AnalysisError('analyze_scalar: a double-quotes-only flag is reset inside the loop')
-    # the character variable(s): bound inside the loop to one character of the scalar
-    text = f.params[1] if len(f.params) > 1 else None
-    cvars = set()
-    if isinstance(loop, ast.For):
-        cvars |= {x.id for x in ast.walk(loop.target) if isinstance(x, ast.Name)}
-    for x in ast.walk(loop):
-        if isinstance(x, ast.Assign) and len(x.targets) == 1 and isinstance(x.targets[0], ast.Name) \
-                and isinstance(x.value, ast.Subscript) and not isinstance(x.value.slice, ast.Slice) \
-                and isinstance(x.value.value, ast.Name) and x.value.value.id == text:
-            cvars.add(x.targets[0].id)
-    if not cvars:
-        raise AnalysisError('analyze_scalar: no variable holds the current character of the scalar')
     head = cfg.entry_of(loop) if isinstance(loop, ast.While) else None
     if isinstance(loop, ast.For):
         fn = [n for n in cfg.nodes if n.kind == 'for' and n.stmt is loop]
